@@ -117,14 +117,24 @@ def step(ctx, w, script):
                         ret = "wrong-default"
             elif op == "popitem":
                 line = "popitem %d" % x
-                if ref:
-                    k0 = min(ref)
-                    want_ret = "%d:%d" % (k0, ref.pop(k0))
-                else:
+                if not ref:
                     want_ret = None
                     want_exc[0] = "KeyError"
                 k, r = m.popitem()
-                ret = "%d:%d" % (k, w.eidx.get(id(r), 99))
+                # any present pair may be returned (Appendix A: "up to
+                # iteration order"); the model's popitem takes the lowest
+                # offset - another choice is shown to it as pop of that key
+                v = w.eidx.get(id(r), 99)
+                if k in ref and ref[k] == v:
+                    if k != min(ref):
+                        line = "pop %d %d" % (x, k)
+                        ret = want_ret = str(v)
+                        ctx.count("op:popitem:not-lowest")
+                    else:
+                        ret = want_ret = "%d:%d" % (k, v)
+                    del ref[k]
+                else:
+                    ret, want_ret = "%d:%d" % (k, v), "a present pair"
             elif op == "setdefault":
                 k, v = key(), rng.randrange(N_EXPR)
                 line = "setdefault %d %d %d" % (x, k, v)
